@@ -2,3 +2,41 @@
     Statements and [Print Assumptions] only. *)
 From WG Require Import Base.Prelude Algo.Llp Algo.LlpStatements Algo.LlpFacts.
 Local Open Scope N_scope.
+
+(** [combine]: two nodes get the same new label iff they had the same result label and the
+    same label in the combined labeling *)
+Theorem C17_combine_refinement : S_combine_refinement.
+Proof. exact combine_refinement. Qed.
+Print Assumptions C17_combine_refinement.
+
+(** [combine]: the new labels are exactly [0, k), k the returned number of labels *)
+Theorem C17_combine_dense : S_combine_dense.
+Proof. exact combine_dense. Qed.
+Print Assumptions C17_combine_dense.
+
+(** [combine_labels]: the classes of the result are the common refinement of the classes of
+    all stored labelings (whatever their costs and directory order), and the labels are dense *)
+Theorem C17_combine_labels_refinement : S_combine_labels_refinement.
+Proof. exact combine_labels_refinement. Qed.
+Print Assumptions C17_combine_labels_refinement.
+
+(** [combine_labels] succeeds on every non-empty family of labelings by node identifiers *)
+Theorem C17_combine_labels_total : S_combine_labels_total.
+Proof. exact combine_labels_total. Qed.
+Print Assumptions C17_combine_labels_total.
+
+(** [invert_permutation]: for every order of the parallel writes the result is the inverse
+    permutation; inverting twice gives the permutation back *)
+Theorem C17_invert_perm : S_invert_perm.
+Proof. exact invert_perm. Qed.
+Print Assumptions C17_invert_perm.
+
+(** [labels_to_ranks] yields a permutation of [0, n) for arbitrary labels *)
+Theorem C17_ranks_perm : S_ranks_perm.
+Proof. exact ranks_perm. Qed.
+Print Assumptions C17_ranks_perm.
+
+(** ranks are increasing in the label, ties broken by node identifier *)
+Theorem C17_ranks_monotone : S_ranks_monotone.
+Proof. exact ranks_monotone. Qed.
+Print Assumptions C17_ranks_monotone.
